@@ -41,6 +41,9 @@ type RawClient struct {
 	// MapPeersV6, when set, encodes the next XOR-PEER-ADDRESS of an IPv4 peer as an IPv4-mapped IPv6
 	// address (family 0x02): the same peer in another notation. Consumed by one request.
 	MapPeersV6 bool
+	// RefreshFamily, when non-zero, makes the next Refresh carry REQUESTED-ADDRESS-FAMILY (RFC 6156):
+	// 1 = the allocation's own family (an ordinary, valid Refresh), 2 = the other family.
+	RefreshFamily int
 
 	Inbox []Inbound
 	// pending: transaction ids of requests sent and not yet answered.
